@@ -694,18 +694,71 @@ def _mha_decode(api, F, H, D, params, xx, step_kw, jitted=None):
   return np.concatenate(outs, axis=1)
 
 
-def _np_layernorm(v, scale, eps=1e-6):
-  """LayerNorm(use_bias=False) over the last axis. Evaluated in float32 with flax's own formula
-  (var = max(0, E[x^2] - E[x]^2), y = (x - mean) * rsqrt(var + eps) * scale): the fast-variance form cancels badly
-  when the components are close, so a float64 reference would differ by rounding alone."""
-  v = np.asarray(v, np.float32)
-  mean = v.mean(-1, keepdims=True, dtype=np.float32)
-  var = np.maximum(np.float32(0), (v * v).mean(-1, keepdims=True, dtype=np.float32) - mean * mean)
-  mul = (np.float32(1) / np.sqrt(var + np.float32(eps))) * np.asarray(scale, np.float32)
-  return ((v - mean) * mul).astype(np.float64)
+EPS32 = 2.0 ** -24  # float32 unit roundoff
+QK_WCAP = 2e-2      # a normalize_qk case is used only if its rounding bound on the attention weights is below this
+QK_OCAP = 3e-2      # ... and on the layer outputs below this (a wrong LayerNorm moves both by O(0.1 - 1))
 
 
-TOL_QKNORM = 1e-3  # named float tolerance for the normalize_qk comparisons (rsqrt of a cancelling variance)
+def _ln_with_err(x, absx, scale, nterms, eps=1e-6):
+  """Exact (float64) LayerNorm(use_bias=False) over the last axis of the exact projections `x`, together with a
+  first-order bound on the absolute error of a float32 evaluation by flax's formula
+  `var = max(0, E[x^2] - E[x]^2); y = (x - mean) * rsqrt(var + eps) * scale`, whose subtraction cancels when the
+  components of a head are close (head_dim = 2: var = ((a-b)/2)^2). `absx` = sum |x_f||W_f| + |b| bounds the
+  rounding of the float32 projection itself (`nterms` additions). Returns (y, err_y, hopeless)."""
+  D = x.shape[-1]
+  ux = (nterms + 1) * EPS32 * absx
+  mean = x.mean(-1, keepdims=True)
+  msq = (x * x).mean(-1, keepdims=True)
+  var = np.maximum(msq - mean * mean, 0.0)
+  u = ux.max(-1, keepdims=True) + 2 * EPS32 * np.abs(x).max(-1, keepdims=True)
+  dvar = (D + 3) * EPS32 * msq + 4 * np.sqrt(var) * u + 4 * u * u
+  den = var + eps
+  hopeless = bool((dvar >= 0.5 * den).any())
+  c = x - mean
+  yhat = c / np.sqrt(den)
+  ey = (2 * u + np.abs(c) * dvar / den) / np.sqrt(den) + 4 * EPS32 * np.abs(yhat)
+  sc = np.asarray(scale, np.float64)
+  return yhat * sc, ey * np.abs(sc), hopeless
+
+
+def _qk_conditioning(params, xq, xk, D):
+  """normalize_qk reference in float64 plus rounding bounds: `wbound` on any attention weight, `obound` on any
+  output element of the layer (both for ONE float32 evaluation against exact arithmetic)."""
+  P = {n: (np.asarray(v['kernel'], np.float64), np.asarray(v['bias'], np.float64)) for n, v in params.items() if 'kernel' in v}
+
+  def proj(x, n):
+    x = np.asarray(x, np.float64)
+    y = np.einsum('btf,fhd->bthd', x, P[n][0]) + P[n][1]
+    a = np.einsum('btf,fhd->bthd', np.abs(x), np.abs(P[n][0])) + np.abs(P[n][1])
+    return y, a
+
+  q, aq = proj(xq, 'query')
+  k, ak = proj(xk, 'key')
+  v, _ = proj(xk, 'value')
+  F = np.shape(xq)[-1]
+  qh, eq, b1 = _ln_with_err(q, aq, params['query_ln']['scale'], F)
+  kh, ek, b2 = _ln_with_err(k, ak, params['key_ln']['scale'], F)
+  e = (np.einsum('bqhd,bkhd->bhqk', np.abs(qh), ek) + np.einsum('bqhd,bkhd->bhqk', eq, np.abs(kh))
+       + np.einsum('bqhd,bkhd->bhqk', eq, ek)) / math.sqrt(D)
+  if b1 or b2:
+    return {'q': qh, 'k': kh, 'wbound': math.inf, 'obound': math.inf}
+  wbound = float(np.expm1(2 * e.max()))  # |dw_i| = w_i |dz_i - sum_j w_j dz_j| <= 2 max|dz|, with second-order slack
+  obound = wbound * float(np.einsum('bhd,hdf->bf', np.abs(v).sum(axis=1), np.abs(P['out'][0])).max())
+  return {'q': qh, 'k': kh, 'wbound': wbound, 'obound': obound}
+
+
+def _qk_wellconditioned_inputs(ctx, params, D, make_inputs, what, attempts=6):
+  """Draws inputs (attempt 0 is the case's own data) until the rounding bounds are below the caps; returns
+  (inputs, conditioning) or (None, None) when every attempt is ill-conditioned (counted, never a verdict)."""
+  for a in range(attempts):
+    inputs = make_inputs(a)
+    cond = _qk_conditioning(params, inputs[0], inputs[-1], D)
+    if cond['wbound'] <= QK_WCAP and 2 * cond['obound'] <= QK_OCAP:
+      ctx.count('qk_norm_conditioning', f'{what}-ok' if a == 0 else f'{what}-regenerated')
+      return inputs, cond
+  ctx.count('qk_norm_conditioning', f'{what}-skipped_ill_conditioned')
+  ctx.extra['skipped_ill_conditioned'] = ctx.extra.get('skipped_ill_conditioned', 0) + 1
+  return None, None
 
 
 def check_decode_trace(ctx, batch, cases):
@@ -1445,14 +1498,23 @@ def check_decodef(ctx, batch, cases):
     am = attn_mod(api)
     x = np.array(case['x'], np.float32)
     rs = np.random.default_rng(case['pseed'])
-    params = _mha_params(F, H, D, case['pseed'], integer=False, qk_norm=case.get('qk_norm', False))
+    qk = case.get('qk_norm', False)
+    params = _mha_params(F, H, D, case['pseed'], integer=False, qk_norm=qk)
+    tol = TOL
+    if qk:  # the inputs are part of the case: an ill-conditioned LayerNorm falls back to normalize_qk=False (counted)
+      got, cond = _qk_wellconditioned_inputs(ctx, params, D, lambda a: (x,), 'decode', attempts=1)
+      if got is None:
+        qk = False
+        params = _mha_params(F, H, D, case['pseed'], integer=False, qk_norm=False)
+      else:
+        tol = TOL + 2 * cond['obound']
     user = None if case['user'] is None else np.array(case['user'], np.float32)  # [T,B,L]
     bias = rs.normal(0, 1, (T, B, H, T)).astype(np.float32) if case['use_bias'] else None
     p = case['p']
     x2 = x.copy()
     x2[:, p:] = rs.choice(PERT, x2[:, p:].shape)
     ctx.case(case, nontrivial=T >= 2)
-    ctx.count('decode_float', f"{api}{'-mask' if user is not None else ''}{'-bias' if bias is not None else ''}{'-qknorm' if case.get('qk_norm') else ''}")
+    ctx.count('decode_float', f"{api}{'-mask' if user is not None else ''}{'-bias' if bias is not None else ''}{'-qknorm' if qk else ''}")
 
     def step_kw(t):
       kw = {}
@@ -1481,9 +1543,9 @@ def check_decodef(ctx, batch, cases):
       continue
     yd, yw, yd2 = rd[1], rw[1], rd2[1]
     err = float(np.abs(yd - yw).max()) if yd.shape == yw.shape else float('inf')
-    if not err <= (1e-4 if case.get('qk_norm') else TOL):
+    if not err <= tol:
       t_bad = int(np.argmax(np.abs(yd - yw).max(axis=(0, 2)))) if yd.shape == yw.shape else -1
-      ctx.violation('decode-not-causal-float', f'{api}: feeding the sequence one position at a time with the decode cache differs from the whole-sequence run with a causal mask by {err:.3g} (float tolerance {TOL}), first at position {t_bad}', case)
+      ctx.violation('decode-not-causal-float', f'{api}: feeding the sequence one position at a time with the decode cache differs from the whole-sequence run with a causal mask by {err:.3g} (float tolerance {tol:.3g}), first at position {t_bad}', case)
       continue
     if not np.array_equal(yd[:, :p], yd2[:, :p]):
       ctx.violation('decode-future-not-inert', f'{api}: decode outputs before position {p} changed when only inputs at positions >= {p} were changed', case)
@@ -1515,10 +1577,22 @@ def check_weights(ctx, batch, cases):
     ctx.count('attn_weights', f"{api}{'-module' if via_module else ''}{'-qknorm' if via_module and case.get('qk_norm') else ''}{'-mask' if mask is not None else ''}{'-bias' if bias is not None else ''}")
     jm = None if mask is None else jnp.asarray(mask)
     jb = None if bias is None else jnp.asarray(bias)
+    tol = TOL
     if via_module:
       F = 3
-      params = _mha_params(F, H, D, case['pseed'], integer=False, qk_norm=case.get('qk_norm', False))
+      qk = case.get('qk_norm', False)
+      params = _mha_params(F, H, D, case['pseed'], integer=False, qk_norm=qk)
       xin = rs.normal(0, 1, (B, Lq, F)).astype(np.float32)
+      cond = None
+      if qk:
+        # normalize_qk is only judged on inputs whose float32 LayerNorm is well conditioned; the tolerance is the
+        # float tolerance plus the rounding bound of this very case
+        mk = lambda a: (xin if a == 0 else np.random.default_rng(case['pseed'] + 7919 * a).normal(0, 1, (B, Lq, F)).astype(np.float32),)
+        got, cond = _qk_wellconditioned_inputs(ctx, params, D, mk, 'weights')
+        if got is None:
+          continue
+        xin = got[0]
+        tol = TOL + cond['wbound']
       kw = {'mask': jm, 'attention_bias': jb, 'sow_weights': True}
 
       def run():
@@ -1529,13 +1603,12 @@ def check_weights(ctx, batch, cases):
         m(jnp.asarray(xin), **kw)
         return np.asarray(m.attention_weights.value[0])
 
-      P = {n_: (np.asarray(v['kernel'], np.float64), np.asarray(v['bias'], np.float64)) for n_, v in params.items() if 'kernel' in v}
-      q = np.einsum('btf,fhd->bthd', xin.astype(np.float64), P['query'][0]) + P['query'][1]
-      k = np.einsum('btf,fhd->bthd', xin.astype(np.float64), P['key'][0]) + P['key'][1]
-      if 'query_ln' in params:  # normalize_qk: queries through query_ln, keys through key_ln
-        q, k = q.astype(np.float32), k.astype(np.float32)
-        q = _np_layernorm(q, params['query_ln']['scale'])
-        k = _np_layernorm(k, params['key_ln']['scale'])
+      if cond is not None:  # queries through query_ln, keys through key_ln, exact arithmetic
+        q, k = cond['q'], cond['k']
+      else:
+        P = {n_: (np.asarray(v['kernel'], np.float64), np.asarray(v['bias'], np.float64)) for n_, v in params.items() if 'kernel' in v}
+        q = np.einsum('btf,fhd->bthd', xin.astype(np.float64), P['query'][0]) + P['query'][1]
+        k = np.einsum('btf,fhd->bthd', xin.astype(np.float64), P['key'][0]) + P['key'][1]
       r = call(run)
     else:
       q = rs.normal(0, 1, (B, Lq, H, D)).astype(np.float32)
@@ -1556,9 +1629,8 @@ def check_weights(ctx, batch, cases):
       continue
     err = float(np.abs(w - want).max())
     leak = bool((w[~allowed] != 0).any())
-    tol = TOL_QKNORM if (via_module and case.get('qk_norm')) else TOL
     if leak or not err <= tol:
-      ctx.violation('attn-weights-wrong', f'{api} attention weights: {"non-zero weight at a masked position; " if leak else ""}max deviation {err:.3g} from softmax(q.k/sqrt(d)+bias) over the allowed positions{' (q, k through query_ln / key_ln)' if via_module and case.get('qk_norm') else ''} (tolerance {tol})', case)
+      ctx.violation('attn-weights-wrong', f'{api} attention weights: {"non-zero weight at a masked position; " if leak else ""}max deviation {err:.3g} from softmax(q.k/sqrt(d)+bias) over the allowed positions{' (q, k through query_ln / key_ln)' if via_module and case.get('qk_norm') else ''} (tolerance {tol:.3g} = float tolerance + rounding bound of the case)', case)
 
 
 def gen_mhaagree_cases(rng, thorough):
@@ -1586,6 +1658,18 @@ def check_mhaagree(ctx, batch, cases):
     bias = rs.normal(0, 1, (B, H, T, T)).astype(np.float32) if case['use_bias'] else None
     ctx.case(case, nontrivial=True)
     ctx.count('mha_agree', f"{'decode' if dec else 'cross' if case['cross'] else 'self'}{'-bias' if bias is not None else ''}{'-qknorm' if qk else ''}")
+    tol = TOL
+    if qk:
+      def mk(a):
+        r_ = rs if a == 0 else np.random.default_rng(case['pseed'] + 7919 * a)
+        xa = x if a == 0 else r_.normal(0, 1, (B, T, F)).astype(np.float32)
+        za = z if a == 0 else r_.normal(0, 1, (B, T, F)).astype(np.float32)
+        return (xa, za) if (case['cross'] and not dec) else (xa,)
+      got, cond = _qk_wellconditioned_inputs(ctx, params, D, mk, 'agree')
+      if got is None:
+        continue
+      x, z = got[0], got[-1]
+      tol = TOL + 2 * cond['obound']  # two float32 evaluations, each within the bound of exact arithmetic
     if dec:
       def step_kw(t):
         kw = {'mask': jnp.asarray(mask[:, :, t : t + 1, :])}
@@ -1605,8 +1689,8 @@ def check_mhaagree(ctx, batch, cases):
       ctx.violation('mha-agree-raises', f'attention layer raised {ra[1] if ra[0] != "ok" else rb[1]} (normalize_qk={qk}, decode={dec})', case)
       continue
     err = float(np.abs(ra[1] - rb[1]).max()) if ra[1].shape == rb[1].shape else float('inf')
-    if not err <= (TOL_QKNORM if qk else TOL):
-      ctx.violation('linen-nnx-attention-disagree', f'Linen MultiHeadDotProductAttention and nnx.MultiHeadAttention with the same parameters (normalize_qk={qk}, {"decode" if dec else "whole sequence"}) differ by {err:.3g} (tolerance {TOL})', case)
+    if not err <= tol:
+      ctx.violation('linen-nnx-attention-disagree', f'Linen MultiHeadDotProductAttention and nnx.MultiHeadAttention with the same parameters (normalize_qk={qk}, {"decode" if dec else "whole sequence"}) differ by {err:.3g} (tolerance {tol:.3g})', case)
 
 
 # ------------------------------------------------------------------------------------------------
